@@ -1,0 +1,201 @@
+//go:build verif
+// +build verif
+
+package store
+
+// Crash-point hook of the /verif durability check (C08).  Compiled only with -tags verif.
+//
+// Every write / fsync / LevelDB Put of the stable-block persistence pipeline calls
+// verifCrashPoint(tag) (or verifCrashWrite just before a file write).  Hits are counted over the
+// whole process.  When armed through the environment the process dies (os.Exit(77)) at the k-th hit:
+//
+//	VERIF_CRASH_AT=<k>        die at the k-th hit (0/unset: never)
+//	VERIF_CRASH_TORN=<spec>   die *inside* a file write instead: at the first write hit with index >= k
+//	                          a prefix of the buffer is written, then the process dies.
+//	                          spec: b<n> = n bytes, f<p>/<q> = len*p/q bytes, m<n> = len-n bytes, r<n> = n*256 bytes
+//	VERIF_CRASH_LOG=<file>    the crash record (json) is written there (fsynced) before dying
+//	VERIF_CRASH_TRACE=<file>  every hit is appended there (dry runs: counting and tag sequence)
+//	VERIF_CRASH_SCHED=lag     the async bitcask writer blocks at the start of BitCask.Put until
+//	                          VerifReleaseWriter() is called (the writer lags behind the main thread)
+//
+// Process-death model: bytes of completed write(2) calls persist, so "after write" and "after
+// fsync" are the same point.
+
+import (
+	"encoding/json"
+	"fmt"
+	"os"
+	"path/filepath"
+	"strconv"
+	"strings"
+	"sync"
+)
+
+const VerifCrashExitCode = 77
+
+var verifCrash = struct {
+	sync.Mutex
+	hits       int
+	at         int
+	torn       string
+	log        string
+	trace      *os.File
+	lag        bool
+	gate       chan struct{}
+	released   bool
+	mainLast   string
+	writerLast string
+}{gate: make(chan struct{})}
+
+func init() {
+	verifCrash.at, _ = strconv.Atoi(os.Getenv("VERIF_CRASH_AT"))
+	verifCrash.torn = os.Getenv("VERIF_CRASH_TORN")
+	verifCrash.log = os.Getenv("VERIF_CRASH_LOG")
+	verifCrash.lag = os.Getenv("VERIF_CRASH_SCHED") == "lag"
+	if p := os.Getenv("VERIF_CRASH_TRACE"); p != "" {
+		verifCrash.trace, _ = os.OpenFile(p, os.O_CREATE|os.O_WRONLY|os.O_APPEND, 0644)
+	}
+}
+
+// VerifCrashHits returns the number of crash points passed so far.
+func VerifCrashHits() int {
+	verifCrash.Lock()
+	defer verifCrash.Unlock()
+	return verifCrash.hits
+}
+
+// VerifReleaseWriter lets a lagging async writer (VERIF_CRASH_SCHED=lag) run.
+func VerifReleaseWriter() {
+	verifCrash.Lock()
+	defer verifCrash.Unlock()
+	if !verifCrash.released {
+		verifCrash.released = true
+		close(verifCrash.gate)
+	}
+}
+
+// VerifPendingWrites is the number of records not yet acknowledged by the async writer.
+func (queue *FileQueue) VerifPendingWrites() int {
+	queue.IndexRW.Lock()
+	defer queue.IndexRW.Unlock()
+	return len(queue.Index)
+}
+
+func verifFileClass(path string) string {
+	switch filepath.Base(path) {
+	case "tmp.data":
+		return "wal"
+	case "context.data":
+		return "ctx"
+	}
+	return "cask"
+}
+
+// verifHit counts one hit; it returns true when this hit is the one to die at.
+// Must be called with the lock held.
+func verifHit(tag string, isWrite bool) bool {
+	verifCrash.hits++
+	if strings.HasPrefix(tag, "cask.") {
+		verifCrash.writerLast = tag
+	} else {
+		verifCrash.mainLast = tag
+	}
+	if verifCrash.trace != nil {
+		fmt.Fprintf(verifCrash.trace, "%d %s\n", verifCrash.hits, tag)
+	}
+	if verifCrash.at <= 0 {
+		return false
+	}
+	if verifCrash.torn != "" {
+		return isWrite && verifCrash.hits >= verifCrash.at
+	}
+	return verifCrash.hits == verifCrash.at
+}
+
+func verifDie(tag string, torn, of int) {
+	rec := map[string]interface{}{"hit": verifCrash.hits, "tag": tag, "torn": torn, "of": of,
+		"main_last": verifCrash.mainLast, "writer_last": verifCrash.writerLast}
+	if verifCrash.log != "" {
+		if f, err := os.OpenFile(verifCrash.log, os.O_CREATE|os.O_WRONLY|os.O_TRUNC, 0644); err == nil {
+			b, _ := json.Marshal(rec)
+			f.Write(append(b, '\n'))
+			f.Sync()
+			f.Close()
+		}
+	}
+	if verifCrash.trace != nil {
+		verifCrash.trace.Sync()
+	}
+	os.Exit(VerifCrashExitCode)
+}
+
+// verifCrashPoint is a crash point between two writes.
+func verifCrashPoint(tag string) {
+	if tag == "cask.put" && verifCrash.lag {
+		<-verifCrash.gate
+	}
+	verifCrash.Lock()
+	defer verifCrash.Unlock()
+	if verifHit(tag, false) {
+		verifDie(tag, 0, 0)
+	}
+}
+
+// verifCrashPointIdx is a crash point inside a loop over the 256 bitcask directories: only four of them count.
+func verifCrashPointIdx(tag string, index int) {
+	if index%85 == 0 {
+		verifCrashPoint(tag)
+	}
+}
+
+func verifTornLen(spec string, n int) int {
+	k := 0
+	switch {
+	case strings.HasPrefix(spec, "b"):
+		k, _ = strconv.Atoi(spec[1:])
+	case strings.HasPrefix(spec, "m"):
+		k, _ = strconv.Atoi(spec[1:])
+		k = n - k
+	case strings.HasPrefix(spec, "r"):
+		k, _ = strconv.Atoi(spec[1:])
+		k *= 256
+	case strings.HasPrefix(spec, "f"):
+		parts := strings.SplitN(spec[1:], "/", 2)
+		if len(parts) == 2 {
+			p, _ := strconv.Atoi(parts[0])
+			q, _ := strconv.Atoi(parts[1])
+			if q > 0 {
+				k = n * p / q
+			}
+		}
+	}
+	if k > n-1 {
+		k = n - 1
+	}
+	if k < 1 {
+		k = 1
+	}
+	return k
+}
+
+// verifCrashWrite is the crash point just before file.Write(data) (file already positioned).
+// Untorn: the process dies before the write.  Torn: a prefix of data is written first.
+func verifCrashWrite(step string, path string, file *os.File, data []byte) {
+	tag := verifFileClass(path) + "." + step
+	verifCrash.Lock()
+	defer verifCrash.Unlock()
+	if !verifHit(tag, true) {
+		return
+	}
+	if verifCrash.torn == "" || len(data) < 2 {
+		verifDie(tag, 0, len(data))
+	}
+	k := verifTornLen(verifCrash.torn, len(data))
+	file.Write(data[:k])
+	verifDie(tag, k, len(data))
+}
+
+// verifCrashSynced is the crash point after a completed write+fsync of a file.
+func verifCrashSynced(path string) {
+	verifCrashPoint(verifFileClass(path) + ".synced")
+}
